@@ -1,13 +1,13 @@
 SPECIFICATION Spec
 CONSTANTS
-  Mods = {"e", "a"}
+  Mods = {"e", "a", "b"}
   Entry = "e"
   Decls = {"d1", "d2"}
   AliasIds = {"i1"}
-  Names = {"n1", "n2"}
+  Names = {"n1"}
   MaxRefs = 1
   Emit = TRUE
-  ModRefs = TRUE
+  ModRefs = FALSE
 INVARIANT Agree
 INVARIANT Closed
 INVARIANT TracedAgree
